@@ -106,7 +106,7 @@ PROPS = {
         design_ref="DESIGN.md section 4, C10",
     ),
     "C12": dict(
-        coq=["Props.C12_ans"],
+        coq=["Props.C12_ans", "Props.C12_ans_bits"],
         fams=[("fam_ans", "gen_encode_only", 500, 20000)],
         anchors=["src/stream/stack.rs", "src/stream/queue.rs", "src/stream/mod.rs"],
         rule="message of >=10 symbols with the size bound evaluated at >=1 point",
@@ -114,8 +114,10 @@ PROPS = {
                    "2^(SB-WB) * prod(2^P_i (K_i+1)) with K_i = 2^(SB-WB-P_i), i.e. bits <= SB + sum(P_i - log2 p_i) + "
                    "sum log2(1+1/K_i); and words <= n + ceil(SB/WB). The same inequality is evaluated with exact "
                    "integers on the implementation's word counts.",
-        level_note="RANGE CODER ANALOGUE PENDING. The real-number (log2) reading is the stated consequence of the "
-                   "integer inequality, not a separate Coq theorem yet; the docs' 0.1% figure is not claimed.",
+        level_note="RANGE CODER ANALOGUE PENDING. The bit-count reading (C12_ans_bits, over Coq's reals) and the "
+                   "0.006 bit figure of the default preset (C12_default_overhead, by CoqInterval) depend on the "
+                   "standard library's real-number axioms and primitive int/float declarations, listed in the "
+                   "evidence; the integer theorems are axiom-free. The docs' 0.1% figure is not claimed.",
         technique="Coq proof (potential-function induction) + exact-integer oracle on the implementation",
         design_ref="DESIGN.md section 4, C12",
     ),
